@@ -217,7 +217,80 @@ def consequence(ns, res, r, script, origin, scratch, budget_left):
                         'mutator': mname,
                         'reference_message': msg
                     })
+    # Every numeral of the script, in the order in which the hierarchical
+    # strategy asks (breadth first, caches kept): a numeral that is an index
+    # of an identifier or of a sort is not a term; whatever is inferred for
+    # an equal numeral elsewhere must not lead to its replacement
+    ns.smtlib.collect_information(exprs)
+    cm = muts[0][1]
+    for node in ns.nodes.bfs(exprs):
+        if not node.is_leaf() or not node.data.isdigit():
+            continue
+        try:
+            if not cm.filter(node):
+                continue
+            props = list(cm.mutations(node))
+        except Exception:  # noqa
+            continue
+        for simp in props[:2]:
+            if budget_left <= 0:
+                return budget_left
+            budget_left -= 1
+            cand = ns.mutator_utils.apply_simp(exprs, simp)
+            ctext = ns.nodeio.write_smtlib_to_str(cand)
+            with open(path, 'w') as f:
+                f.write(ctext)
+            ok, msg = cvc5_accepts(path)
+            res.count('evaluations')
+            res.count('consequence_candidates_sort_checked')
+            res.count('consequence_numeral_replacements_checked')
+            if ok or 'not declared' in msg or 'previously declared' in msg \
+                    or 'already' in msg:
+                continue
+            res.violation(
+                'ill-sorted-replacement:Constants:numeral',
+                f'Constants replaces the numeral {node.data} by a constant '
+                f'"of the same sort", but the reference sort checker '
+                f'rejects the result: {msg.strip()[:160]}', {
+                    'script': text, 'candidate': ctext,
+                    'term': str(node), 'mutator': 'Constants',
+                    'reference_message': msg})
+            return budget_left
     return budget_left
+
+
+def numeral_script(r):
+    """Int literals that coincide with widths and indices, the Int use
+    first (so that it is asked about first in breadth-first order)."""
+    w = r.choice([4, 8, 16])
+    h = r.randint(1, w - 1)
+    lo = r.randint(0, h)
+    k = r.randint(2, 2 ** w - 1)
+    lines = ['(set-logic ALL)', '(declare-const i Int)',
+             f'(assert (> (+ i {w}) (* {h} {lo})))',
+             f'(declare-const x (_ BitVec {w}))',
+             f'(assert (= x (_ bv{k} {w})))',
+             f'(assert (= ((_ extract {h} {lo}) x) '
+             f'((_ extract {h} {lo}) (bvnot x))))',
+             f'(assert (= ((_ zero_extend {h}) x) ((_ sign_extend {h}) x)))']
+    if r.random() < 0.5:
+        lines.insert(2, lines.pop(3))  # the declaration first after all
+    return '\n'.join(lines) + '\n'
+
+
+class _TextScript:
+    """A script given as text (no typed positions)."""
+
+    def __init__(self, text):
+        self._nested = refreader.read(text)
+
+    def nested(self):
+        return self._nested
+
+    def positions(self):
+        return []
+
+
 
 
 # ---- deep terms -----------------------------------------------------------
@@ -376,6 +449,13 @@ def shard(args):
             i = 0
             while left > 0 and i < 400:
                 i += 1
+                if i % 4 == 0:
+                    left = consequence(ns, res, r,
+                                       _TextScript(numeral_script(r)),
+                                       f'{args["shard"]}:{i}:numerals',
+                                       scratch, left)
+                    res.count('consequence_numeral_scripts')
+                    continue
                 script = gen_smt.random_script(
                     r, theories=['core'] + r.sample(
                         ['ints', 'reals', 'bv', 'fp', 'strings', 'arrays',
